@@ -195,6 +195,8 @@ def r4_dispatch(ck, cx):
 
 def shared_layout_findings(ck, cx, rule, class_names, why, rules=('R2', 'R3')):
     """re-report, under `rule` of another property, the C01 R2/R3 layout findings of the named classes"""
+    if getattr(ck, 'no_shares', False):
+        return 99
     sub = type(ck)(ck.pid, ck.tier)
     sub.guard(r2_r3_layouts, sub, cx)
     n = 0
